@@ -1,7 +1,7 @@
 (** C07 -- WSDL/XSD are well-formed, closed, deterministic and drive a foreign client.
     Property theorems only; each closed by [exact] of a lemma proved in coq/C07/. *)
 From Coq Require Import ZArith List Bool Permutation.
-From SpyneV Require Import Base.Prelude C07.Model C07.SortProofs C07.PrefixProofs C07.WsdlProofs C07.TopoProofs.
+From SpyneV Require Import Base.Prelude C07.Model C07.SortProofs C07.PrefixProofs C07.WsdlProofs C07.TopoProofs C07.SchemaProofs.
 Import ListNotations.
 Open Scope Z_scope.
 
@@ -87,6 +87,23 @@ Theorem C07_binding_ops : forall perm a d, wsdl_of perm a = ROk d ->
   Forall2 (fun p b => bind_matches p b (d_tns d)) (d_pts d) (d_binds d) /\
   Permutation (flat_map b_ops (d_binds d)) (map (mk_bop a) (all_meths a)).
 Proof. exact binding_ops_thm. Qed.
+
+(** every base=, member type= and element type= of every schema resolves to a
+    complexType of the document or to an XSD builtin, and every wsdl:part element=
+    resolves to an xs:element of the document -- for every snapshot that
+    populate_interface can leave behind ([wf_snap]: classes registered together
+    with their bases; requests / responses registered and either in the target
+    namespace or the element of a registered class; headers and faults registered
+    under their own element name) and every iteration order of the sets *)
+Theorem C07_schema_closed : forall perm a d,
+  (forall l, Permutation (perm l) l) -> wsdl_of perm a = ROk d -> wf_snap a ->
+  schema_closed d /\ parts_closed d.
+Proof. exact schema_closed_thm. Qed.
+
+(** the hypothesis is decidable; the harness evaluates [wf_snapb] on the snapshot of
+    every generated application *)
+Theorem C07_wf_decidable : forall a, wf_snapb a = true -> wf_snap a.
+Proof. exact wf_snapb_ok. Qed.
 
 (* ---------------------------------------------------------------- witnesses *)
 Definition tx (l : list Z) : text := l.
@@ -182,10 +199,66 @@ Definition foreign_bare_app : snap := app_of
 Definition part_defined (d : adoc) (p : text * qn) : Prop :=
   exists s, In s (d_schemas d) /\ sc_ns s = fst (snd p) /\ In (snd (snd p)) (map fst (sc_elems s)).
 Theorem C07_foreign_bare_refuted :
-  exists a d, wsdl_of (fun l => l) a = ROk d /\
+  exists a d, wsdl_of (fun l => l) a = ROk d /\ wf_snapb a = false /\
     exists g p, In g (d_msgs d) /\ In p (mg_parts g) /\ ~ part_defined d p.
 Proof.
-  exists foreign_bare_app. eexists. split; [vm_compute; reflexivity|].
+  exists foreign_bare_app. eexists. split; [vm_compute; reflexivity|]. split; [vm_compute; reflexivity|].
   eexists. eexists. split; [left; reflexivity|]. split; [left; reflexivity|].
   intros (s & Hs & E & _). simpl in Hs. destruct Hs as [<-|[]]. vm_compute in E. discriminate.
+Qed.
+
+(** a snapshot with classes: a request and a response in the target namespace, a
+    class in another namespace, a header that extends it from a third one, a fault;
+    the hypothesis of C07_schema_closed holds and the build succeeds *)
+Definition kcls (id : Z) (ns tn : text) (base : option Z) (fs : list (text * Z)) : cls :=
+  {| c_id := id; c_repr := tn; c_ns := ns; c_tn := tn; c_kind := KComplex; c_base := base;
+     c_fields := fs; c_ename := tn; c_ens := ns |}.
+Definition cmsg (id : Z) (ns tn : text) : msg :=
+  {| m_cid := id; m_complex := true; m_ename := tn; m_ens := ns; m_tn := tn; m_tns := ns; m_part := tn |}.
+Definition ex_schema_app : snap :=
+  {| a_tns := tns0; a_name := [65];
+     a_classes := [ {| c_id := 0; c_repr := [115]; c_ns := xsd_ns; c_tn := [115; 116; 114; 105; 110; 103];
+                       c_kind := KPlain; c_base := None; c_fields := []; c_ename := []; c_ens := xsd_ns |};
+                    kcls 1 tns0 [109] None [([97], 0)]; kcls 2 tns0 [114] None [([120], 3)];
+                    kcls 3 [107] [75] None [([115], 0)]; kcls 4 [104] [72] (Some 3) []; kcls 5 tns0 [70] None [] ];
+     a_deps := [(1, [0]); (2, [3]); (3, [0]); (4, [3]); (5, [])];
+     a_imports := [(tns0, [[107]; [104]]); ([107], []); ([104], [[107]])];
+     a_svcs := [ {| s_name := [83]; s_ports := [];
+                    s_meths := [ {| me_name := [109]; me_op := [109]; me_port := None;
+                                    me_in := cmsg 1 tns0 [109]; me_out := cmsg 2 tns0 [114];
+                                    me_inh := Some [cmsg 4 [104] [72]]; me_outh := None;
+                                    me_faults := [cmsg 5 tns0 [70]] |} ] |} ];
+     a_pst := pst0 |}.
+Example C07_ex_schema : wf_snapb ex_schema_app = true /\
+  exists d, wsdl_of (fun l => l) ex_schema_app = ROk d /\ map sc_ns (d_schemas d) = [tns0; [107]; [104]]
+            /\ map (fun s => length (sc_types s)) (d_schemas d) = [3%nat; 1%nat; 1%nat].
+Proof. split; [vm_compute; reflexivity|]. eexists. split; [vm_compute; reflexivity|]. vm_compute. auto. Qed.
+
+(** REFUTED without the guard: a class registered as the bare response of one method
+    (its only registered variant is published under the response element name) and
+    used as the header of another leaves the header part without an element
+    (known finding C07|closed|dangling-element|message/part|bare-class-reused-as-header) *)
+Definition header_reuse_app : snap :=
+  {| a_tns := tns0; a_name := [65];
+     a_classes := [ {| c_id := 1; c_repr := [75]; c_ns := [107]; c_tn := [75]; c_kind := KComplex; c_base := None;
+                       c_fields := []; c_ename := [114]; c_ens := tns0 |} ];
+     a_deps := [(1, [])]; a_imports := [(tns0, [[107]]); ([107], [])];
+     a_svcs := [ {| s_name := [83]; s_ports := [];
+                    s_meths := [ {| me_name := [109]; me_op := [109]; me_port := None;
+                                    me_in := mkmsg [109] tns0;
+                                    me_out := {| m_cid := 1; m_complex := true; m_ename := [114]; m_ens := tns0;
+                                                 m_tn := [75]; m_tns := [107]; m_part := [114] |};
+                                    me_inh := Some [cmsg (-1) [107] [75]]; me_outh := None; me_faults := [] |} ] |} ];
+     a_pst := pst0 |}.
+Theorem C07_header_reuse_refuted :
+  exists a d, wsdl_of (fun l => l) a = ROk d /\ wf_snapb a = false /\ ~ parts_closed d.
+Proof.
+  exists header_reuse_app. eexists. split; [vm_compute; reflexivity|]. split; [vm_compute; reflexivity|].
+  intros PC. unfold parts_closed in PC.
+  specialize (PC {| mg_name := [75]; mg_parts := [([75], ([107], [75]))] |} ([75], ([107], [75]))).
+  destruct PC as (s & Hs & E & Hin).
+  - vm_compute. auto.
+  - left. reflexivity.
+  - simpl in Hs. destruct Hs as [<-|[<-|[]]]; vm_compute in E; try discriminate.
+    vm_compute in Hin. tauto.
 Qed.
